@@ -559,7 +559,7 @@ Print Assumptions C13_general_members.
     that; a white-space item is followed by text that cannot start with white space or by a space-padded
     number (%e %k %l ...: the white space takes the padding with it, [unambiguous_ws_b]), not by another
     white-space item; %.f %.3f %.6f %.9f are followed by neither a digit nor, for %.f, a dot; literals
-    are ASCII.  [it_kind_ok] says
+    are well-formed UTF-8 (ASCII or not: C13_class_contains_ascii_class and the examples after it).  [it_kind_ok] says
     the value has the fields the items print; [static_date_ok] / [static_time_ok] decide the
     sufficient combination on the fields the items write ([sfields]); [frac_class_ok k] that all
     fraction items print the same precision [k].  The class is a decidable under-approximation of
@@ -1007,9 +1007,8 @@ Print Assumptions C13_stamp_frac_inhabited.
 (** ** %v (= "%e-%b-%Y"), %h (= %b), %n and %t (white space): StrftimeItems expands them to items of the class
     above (Proofs/C13MoreForms.v).  [fmt_date_class fmt] / [fmt_ndt_class k fmt] decide membership on the
     format STRING; for a member, X::parse_from_str(&v.format(fmt).to_string(), fmt) = Ok(v with the printed
-    fields) for EVERY value.  Items no end-to-end theorem covers yet: the %C + %y pair, %Z / %::z / %:::z /
-    %#z (one-directional: the item theorems above state what holds), %+ and the RFC 2822 / RFC 3339 Fixed
-    items inside parse_internal, non-ASCII literals. *)
+    fields) for EVERY value.  (The %C + %y pair, %Z / %::z / %:::z, "%s" with an offset and non-ASCII literals
+    have end-to-end theorems at the end of this file.) *)
 From V Require Proofs.C13MoreForms.
 Theorem C13_fmt_date_class_roundtrip : forall fmt, Proofs.C13MoreForms.fmt_date_class fmt = true ->
   forall y o d, Proofs.C08Sweeps.repr y o d ->
@@ -1085,3 +1084,314 @@ Example C13_parse_never_panics_inhabited :
   parse Model.Parsed.parsed_new Proofs.C13Total.ex_input_open Proofs.C13Total.ex_items = Val (PErr TooLong).
 Proof. exact Proofs.C13Total.ex_total. Qed.
 Print Assumptions C13_parse_never_panics_inhabited.
+
+(** ** literals of a format need not be ASCII.  The class [static_ok2] / [static_ok] of the theorems above
+    asks of a literal only that it is well-formed UTF-8 ([it_static (Literal l) r = utf8_valid l]); its
+    first byte decides "may start with a digit / a dot" (a byte >= 128 is neither), its first CODE POINT
+    "may start with white space" ([starts_ws]: a literal starting with U+00A0, U+2003, U+3000 ... after a
+    white-space item is outside the class, because the reader's trim_start would eat into it).  So
+    every class theorem above holds for formats such as "%Y年%m月%d日 %H時%M分%S秒".  The class with ASCII
+    literals only ([static_ok2_ascii]: the earlier definition) is contained in it. *)
+Theorem C13_class_contains_ascii_class : forall items,
+  Proofs.C13Static.static_ok2_ascii items = true -> static_ok2 items = true.
+Proof. exact Proofs.C13Static.static_class_grows. Qed.
+Print Assumptions C13_class_contains_ascii_class.
+
+(* the item-level statement: any well-formed literal is rendered as itself and taken back exactly *)
+Theorem C13_literal_utf8_roundtrip : forall a l rest, utf8_valid l = true -> utf8_valid rest = true ->
+  Proofs.C13View.item_rt a (Literal l) l W_none rest.
+Proof. exact Proofs.C13Utf8Lit.item_lit_utf8. Qed.
+Print Assumptions C13_literal_utf8_roundtrip.
+
+Example C13_class_utf8_literal_members :
+  (* the item list and the format string of "%Y年%m月%d日 %H時%M分%S秒"; StrftimeItems yields these items *)
+  ndt_static 9 Proofs.C13MoreForms.CJK_ITEMS = true /\
+  items_of Proofs.C13MoreForms.CJK_FMT = Val (Some Proofs.C13MoreForms.CJK_ITEMS) /\
+  fmt_ndt_class 9 Proofs.C13MoreForms.CJK_FMT = true /\
+  (* "%Y年%m月%d日" as a date format; a space-padded hour in front of a non-ASCII literal *)
+  Proofs.C13MoreForms.fmt_date_class [37;89;229;185;180; 37;109;230;156;136; 37;100;230;151;165] = true /\
+  static_ok [nums N_Hour; Literal [230;153;130]; num N_Minute; Literal [229;136;134]] = true /\
+  (* U+2212 MINUS SIGN, U+00B7 MIDDLE DOT, a four-byte emoji as separators *)
+  static_ok [num0 N_Year; Literal [226;136;146]; num0 N_Month; Literal [194;183]; num0 N_Day; Literal [240;159;149;146]; num0 N_Hour] = true /\
+  (* a literal that starts with NO-BREAK SPACE / IDEOGRAPHIC SPACE: fine after a number or a literal ... *)
+  static_ok [num0 N_Day; Literal [194;160]; num0 N_Month; Literal [227;128;128]; num0 N_Year] = true /\
+  (* ... but not after a white-space item (the reader's trim_start would take it), also through an empty literal *)
+  static_ok2 [num0 N_Day; Space [32]; Literal [194;160]; num0 N_Month] = false /\
+  static_ok2 [num0 N_Day; Space [32]; Literal []; Literal [227;128;128; 65]; num0 N_Month] = false /\
+  static_ok2 [num0 N_Day; Space [32]; Literal [195;160]; num0 N_Month] = true /\
+  (* the flags of an ASCII first byte are what they were: digit / white space / dot *)
+  static_ok2 [num N_Day; Literal [49;229;185;180]] = false /\ static_ok2 [num N_Day; Literal [229;185;180;49]] = true /\
+  static_ok2 [Space [32]; Literal [9;65]] = false /\ static_ok2 [IFixed F_Nanosecond; Literal [46]] = false /\
+  (* ill-formed literals (a lone continuation byte, a truncated sequence, a surrogate) stay outside; white
+     space of the FORMAT that is not ASCII is a Space item of StrftimeItems and stays outside *)
+  static_ok2 [Literal [185;180]] = false /\ static_ok2 [Literal [229;185]] = false /\ static_ok2 [Literal [237;160;128]] = false /\
+  items_of [37;100;194;160;37;72] = Val (Some [num0 N_Day; Space [194;160]; num0 N_Hour]) /\
+  fmt_ndt_class 9 [37;70;194;160;37;84] = false.
+Proof. exact Proofs.C13MoreForms.class_utf8_literal_members. Qed.
+Print Assumptions C13_class_utf8_literal_members.
+
+(* instance of C13_fmt_ndt_class_roundtrip: every NaiveDateTime written with "%Y年%m月%d日 %H時%M分%S秒" is
+   parsed back by NaiveDateTime::parse_from_str with the same format to the value truncated to the
+   second (the leap-second marker is kept) *)
+Theorem C13_cjk_ndt_parse_from_str : forall y o d t, Proofs.C08Sweeps.repr y o d -> valid_time t ->
+  exists text,
+    Model.Format.delayed_display (Model.Format.fa_of_ndt (Model.DateTime.mk_ndt d t))
+      (Model.Strftime.sf_new Proofs.C13MoreForms.CJK_FMT) = Model.Format.fok text /\
+    ndt_parse_from_str text Proofs.C13MoreForms.CJK_FMT =
+      pok (Model.DateTime.mk_ndt d (Model.Time.mk_time (Model.Time.tsecs t) (leap_part t))).
+Proof. exact Proofs.C13MoreForms.cjk_ndt_parse_from_str. Qed.
+Print Assumptions C13_cjk_ndt_parse_from_str.
+
+(** ** the %C + %y pair END TO END (Proofs/C13Century.v; through the general composition above, which
+    resolves a year from century + two-digit year).  [century_items]: the item lists of "%C%y-%m-%d",
+    "%C%y-%j", "%C%y-W%W-%u", "%C%y-U%U-%w" ([century_formats] the format strings).  For EVERY NaiveDate of
+    the years 0..=9999 -- year 0 included -- parsing the formatted text returns the date; likewise
+    NaiveDateTime with "%C%y-%m-%dT%H:%M:%S" (to the second).  The bound is exact: for EVERY negative year
+    the formatter prints a signed century ("-1" "99" for year -1) which the reader's unsigned two-digit
+    field refuses (Invalid); from year 10000 on the century has three digits, one more than the reader's
+    field takes: %C reads two of them, %y the next two, the "-" that follows meets a digit: Invalid for EVERY
+    such date (C13_date_century_wide_refused). *)
+From V Require Proofs.C13Century.
+Theorem C13_date_century_roundtrip : forall y o d items,
+  Proofs.C08Sweeps.repr y o d -> 0 <= y <= 9999 -> In items Proofs.C13Century.century_items ->
+  exists text,
+    Model.Format.write_items (Model.Format.fa_of_date d) items [] = Model.Format.fok text /\
+    (let+ p := parse Model.Parsed.parsed_new text items in pr_of (Model.Parsed.to_naive_date p)) = pok d.
+Proof. exact Proofs.C13Century.date_century_roundtrip. Qed.
+Print Assumptions C13_date_century_roundtrip.
+
+Theorem C13_date_century_parse_from_str : forall y o d fmt,
+  Proofs.C08Sweeps.repr y o d -> 0 <= y <= 9999 -> In fmt Proofs.C13Century.century_formats ->
+  exists text,
+    Model.Format.delayed_display (Model.Format.fa_of_date d) (Model.Strftime.sf_new fmt) = Model.Format.fok text /\
+    date_parse_from_str text fmt = pok d.
+Proof. exact Proofs.C13Century.date_century_parse_from_str. Qed.
+Print Assumptions C13_date_century_parse_from_str.
+
+Example C13_date_century_inhabited :
+  (Proofs.C08Sweeps.repr 0 1 (Proofs.C08Sweeps.mkdate 0 1) /\ 0 <= 0 <= 9999) /\
+  (Proofs.C08Sweeps.repr 9999 365 (Proofs.C08Sweeps.mkdate 9999 365) /\ 0 <= 9999 <= 9999) /\
+  (Proofs.C08Sweeps.repr 2000 366 (Proofs.C08Sweeps.mkdate 2000 366) /\ 0 <= 2000 <= 9999) /\
+  In Proofs.C13Century.CYW_ITEMS Proofs.C13Century.century_items.
+Proof. exact Proofs.C13Century.date_century_roundtrip_inhabited. Qed.
+Print Assumptions C13_date_century_inhabited.
+
+Theorem C13_ndt_century_roundtrip : forall y o v,
+  Proofs.C08Sweeps.repr y o (Model.DateTime.nd_date v) -> 0 <= y <= 9999 -> valid_time (Model.DateTime.nd_time v) ->
+  exists text,
+    Model.Format.write_items (Model.Format.fa_of_ndt v) Proofs.C13Century.CNDT_ITEMS [] = Model.Format.fok text /\
+    (let+ p := parse Model.Parsed.parsed_new text Proofs.C13Century.CNDT_ITEMS in
+     pr_of (Model.Parsed.to_naive_datetime_with_offset p 0)) = pok (trunc_ndt v).
+Proof. exact Proofs.C13Century.ndt_century_roundtrip. Qed.
+Print Assumptions C13_ndt_century_roundtrip.
+
+Theorem C13_ndt_century_parse_from_str : forall y o v,
+  Proofs.C08Sweeps.repr y o (Model.DateTime.nd_date v) -> 0 <= y <= 9999 -> valid_time (Model.DateTime.nd_time v) ->
+  exists text,
+    Model.Format.delayed_display (Model.Format.fa_of_ndt v) (Model.Strftime.sf_new Proofs.C13Century.cndt_format) = Model.Format.fok text /\
+    ndt_parse_from_str text Proofs.C13Century.cndt_format = pok (trunc_ndt v).
+Proof. exact Proofs.C13Century.ndt_century_parse_from_str. Qed.
+Print Assumptions C13_ndt_century_parse_from_str.
+
+Theorem C13_date_century_negative_refused : forall y o d items,
+  Proofs.C08Sweeps.repr y o d -> y < 0 -> In items Proofs.C13Century.century_items ->
+  exists text,
+    Model.Format.write_items (Model.Format.fa_of_date d) items [] = Model.Format.fok text /\
+    (let+ p := parse Model.Parsed.parsed_new text items in pr_of (Model.Parsed.to_naive_date p)) = Val (PErr Invalid).
+Proof. exact Proofs.C13Century.date_century_negative_refused. Qed.
+Print Assumptions C13_date_century_negative_refused.
+
+(* PARTIAL: the formatter's side for every year >= 10000 (a century of at least three digits against the
+   reader's width 2).  Missing here: the failure of the whole parse for a symbolic year >= 10000.
+   SUPERSEDED by C13_date_century_wide_refused below, which proves it for every such date. *)
+Theorem C13_date_century_wide_partial : forall y o d, Proofs.C08Sweeps.repr y o d -> 10000 <= y ->
+  exists t, renders (Model.Format.fa_of_date d) (num0 N_YearDiv100) t /\
+    forallb is_ascii_digit t = true /\ 3 <= blen t /\ digits_value t 0 = y / 100 /\
+    numeric_entry N_YearDiv100 = Some (2, false, 1).
+Proof. exact Proofs.C13Century.date_century_wide_partial. Qed.
+Print Assumptions C13_date_century_wide_partial.
+
+Example C13_century_boundary_refuted :
+  Proofs.C08Sweeps.repr 10000 1 (Proofs.C08Sweeps.mkdate 10000 1) /\
+  Proofs.C13Century.century_text 10000 1 Proofs.C13Century.cymd_format = Model.Format.fok Proofs.C13Century.text_10000 /\
+  date_parse_from_str Proofs.C13Century.text_10000 Proofs.C13Century.cymd_format = Val (PErr Invalid) /\
+  Proofs.C13Century.century_text 10000 1 Proofs.C13Century.cyj_format = Model.Format.fok Proofs.C13Century.text_10000_j /\
+  date_parse_from_str Proofs.C13Century.text_10000_j Proofs.C13Century.cyj_format = Val (PErr Invalid) /\
+  Proofs.C08Sweeps.repr (-1) 1 (Proofs.C08Sweeps.mkdate (-1) 1) /\
+  Proofs.C13Century.century_text (-1) 1 Proofs.C13Century.cymd_format = Model.Format.fok Proofs.C13Century.text_m1 /\
+  date_parse_from_str Proofs.C13Century.text_m1 Proofs.C13Century.cymd_format = Val (PErr Invalid) /\
+  Proofs.C13Century.century_text (-1) 1 Proofs.C13Century.cyj_format = Model.Format.fok Proofs.C13Century.text_m1_j /\
+  date_parse_from_str Proofs.C13Century.text_m1_j Proofs.C13Century.cyj_format = Val (PErr Invalid).
+Proof. exact Proofs.C13Century.century_boundary_refuted. Qed.
+Print Assumptions C13_century_boundary_refuted.
+
+(** ** DateTime<FixedOffset> and the items that do not carry the offset back, END TO END (Proofs/C13Offsets.v;
+    the value domain is [valid_dtz] above).  [wall_trunc yu ou z] is the wall clock of z at whole seconds.
+    "%s": the instant comes back at whole seconds, the offset is lost (the result has offset 0).
+    "%Y-%m-%dT%H:%M:%S%::z" ([DTZ_CC_FMT]): %::z prints +hh:mm:ss, the reader stops after the minutes, so
+    DateTime::parse_from_str is Err(TooLong) for EVERY value; DateTime::parse_and_remainder returns the value
+    (to the second) and the remainder ":00".  An offset that has seconds is printed with them but NOT read back
+    (C13_offsets_inhabited: +01:01:01 comes back as +01:01, the instant one second later, ":01" left over).
+    "...%:::z" ([DTZ_CCC_FMT]): prints +hh, the reader insists on minutes: Err(TooShort) for EVERY value, also
+    through parse_and_remainder -- the set of values that round-trip is empty.
+    "%Z": the formatter prints the offset's Display name (+hh:mm), the reader skips the run of non-white-space and
+    sets no field: "...%z %Z" / "...%:z %Z" ([DTZ_NAME_FMT]) return the value; "... %Z" without an offset item
+    ([NDT_NAME_FMT]) is Err(NotEnough) for EVERY DateTime<FixedOffset> while NaiveDateTime::parse_from_str on the
+    same text returns the wall clock.  (%#z never formats: C13_permissive_offset_read_only.) *)
+From V Require Proofs.C13Offsets.
+Theorem C13_dtz_stamp_roundtrip : forall yu ou z, valid_dtz yu ou z ->
+  exists a text,
+    Model.Format.fa_of_dtz z = Val a /\
+    Model.Format.write_items a Proofs.C13Stamp.STAMP_FMT [] = Model.Format.fok text /\
+    (let+ p := parse Model.Parsed.parsed_new text Proofs.C13Stamp.STAMP_FMT in pr_of (Model.Parsed.to_datetime p)) =
+      pok (Model.DateTime.mk_dtz (Proofs.C13Stamp.floor_ndt (Model.DateTime.dz_utc z)) 0).
+Proof. exact Proofs.C13Offsets.dtz_stamp_roundtrip. Qed.
+Print Assumptions C13_dtz_stamp_roundtrip.
+
+Theorem C13_dtz_stamp_parse_from_str : forall yu ou z, valid_dtz yu ou z ->
+  exists a text,
+    Model.Format.fa_of_dtz z = Val a /\
+    Model.Format.delayed_display a (Model.Strftime.sf_new Proofs.C13Stamp.stamp_format) = Model.Format.fok text /\
+    dt_parse_from_str text Proofs.C13Stamp.stamp_format =
+      pok (Model.DateTime.mk_dtz (Proofs.C13Stamp.floor_ndt (Model.DateTime.dz_utc z)) 0).
+Proof. exact Proofs.C13Offsets.dtz_stamp_parse_from_str. Qed.
+Print Assumptions C13_dtz_stamp_parse_from_str.
+
+Theorem C13_dtz_double_colon_refused : forall yu ou z, valid_dtz yu ou z ->
+  exists a text,
+    Model.Format.fa_of_dtz z = Val a /\
+    Model.Format.write_items a Proofs.C13Offsets.DTZ_CC_FMT [] = Model.Format.fok text /\
+    parse Model.Parsed.parsed_new text Proofs.C13Offsets.DTZ_CC_FMT = perr_ TooLong /\
+    (let+ '(p, r) := parse_and_remainder Model.Parsed.parsed_new text Proofs.C13Offsets.DTZ_CC_FMT in
+     let+ d := pr_of (Model.Parsed.to_datetime p) in pok (d, r)) = pok (trunc_dtz z, [58; 48; 48]).
+Proof. exact Proofs.C13Offsets.dtz_double_colon_refused. Qed.
+Print Assumptions C13_dtz_double_colon_refused.
+
+Theorem C13_dtz_double_colon_parse_from_str : forall yu ou z, valid_dtz yu ou z ->
+  exists a text,
+    Model.Format.fa_of_dtz z = Val a /\
+    Model.Format.delayed_display a (Model.Strftime.sf_new Proofs.C13Offsets.dtz_cc_format) = Model.Format.fok text /\
+    dt_parse_from_str text Proofs.C13Offsets.dtz_cc_format = perr_ TooLong /\
+    dt_parse_and_remainder text Proofs.C13Offsets.dtz_cc_format = pok (trunc_dtz z, [58; 48; 48]).
+Proof. exact Proofs.C13Offsets.dtz_double_colon_parse_from_str. Qed.
+Print Assumptions C13_dtz_double_colon_parse_from_str.
+
+Theorem C13_dtz_triple_colon_refused : forall yu ou z, valid_dtz yu ou z ->
+  exists a text,
+    Model.Format.fa_of_dtz z = Val a /\
+    Model.Format.write_items a Proofs.C13Offsets.DTZ_CCC_FMT [] = Model.Format.fok text /\
+    parse Model.Parsed.parsed_new text Proofs.C13Offsets.DTZ_CCC_FMT = perr_ TooShort /\
+    parse_and_remainder Model.Parsed.parsed_new text Proofs.C13Offsets.DTZ_CCC_FMT = perr_ TooShort.
+Proof. exact Proofs.C13Offsets.dtz_triple_colon_refused. Qed.
+Print Assumptions C13_dtz_triple_colon_refused.
+
+Theorem C13_dtz_triple_colon_parse_from_str : forall yu ou z, valid_dtz yu ou z ->
+  exists a text,
+    Model.Format.fa_of_dtz z = Val a /\
+    Model.Format.delayed_display a (Model.Strftime.sf_new Proofs.C13Offsets.dtz_ccc_format) = Model.Format.fok text /\
+    dt_parse_from_str text Proofs.C13Offsets.dtz_ccc_format = perr_ TooShort /\
+    dt_parse_and_remainder text Proofs.C13Offsets.dtz_ccc_format = perr_ TooShort.
+Proof. exact Proofs.C13Offsets.dtz_triple_colon_parse_from_str. Qed.
+Print Assumptions C13_dtz_triple_colon_parse_from_str.
+
+Theorem C13_dtz_name_roundtrip : forall yu ou z colon, valid_dtz yu ou z ->
+  exists a text,
+    Model.Format.fa_of_dtz z = Val a /\
+    Model.Format.write_items a (Proofs.C13Offsets.DTZ_NAME_FMT colon) [] = Model.Format.fok text /\
+    (let+ p := parse Model.Parsed.parsed_new text (Proofs.C13Offsets.DTZ_NAME_FMT colon) in pr_of (Model.Parsed.to_datetime p)) =
+      pok (trunc_dtz z).
+Proof. exact Proofs.C13Offsets.dtz_name_roundtrip. Qed.
+Print Assumptions C13_dtz_name_roundtrip.
+
+Theorem C13_dtz_name_parse_from_str : forall yu ou z colon, valid_dtz yu ou z ->
+  exists a text,
+    Model.Format.fa_of_dtz z = Val a /\
+    Model.Format.delayed_display a (Model.Strftime.sf_new (Proofs.C13Offsets.dtz_name_format colon)) = Model.Format.fok text /\
+    dt_parse_from_str text (Proofs.C13Offsets.dtz_name_format colon) = pok (trunc_dtz z).
+Proof. exact Proofs.C13Offsets.dtz_name_parse_from_str. Qed.
+Print Assumptions C13_dtz_name_parse_from_str.
+
+Theorem C13_dtz_name_alone : forall yu ou z, valid_dtz yu ou z ->
+  exists a text,
+    Model.Format.fa_of_dtz z = Val a /\
+    Model.Format.write_items a Proofs.C13Offsets.NDT_NAME_FMT [] = Model.Format.fok text /\
+    (let+ p := parse Model.Parsed.parsed_new text Proofs.C13Offsets.NDT_NAME_FMT in pr_of (Model.Parsed.to_datetime p)) = perr_ NotEnough /\
+    (let+ p := parse Model.Parsed.parsed_new text Proofs.C13Offsets.NDT_NAME_FMT in
+     pr_of (Model.Parsed.to_naive_datetime_with_offset p 0)) = pok (Proofs.C13Offsets.wall_trunc yu ou z).
+Proof. exact Proofs.C13Offsets.dtz_name_alone. Qed.
+Print Assumptions C13_dtz_name_alone.
+
+Theorem C13_dtz_name_alone_parse_from_str : forall yu ou z, valid_dtz yu ou z ->
+  exists a text,
+    Model.Format.fa_of_dtz z = Val a /\
+    Model.Format.delayed_display a (Model.Strftime.sf_new Proofs.C13Offsets.ndt_name_format) = Model.Format.fok text /\
+    dt_parse_from_str text Proofs.C13Offsets.ndt_name_format = perr_ NotEnough /\
+    ndt_parse_from_str text Proofs.C13Offsets.ndt_name_format = pok (Proofs.C13Offsets.wall_trunc yu ou z).
+Proof. exact Proofs.C13Offsets.dtz_name_alone_parse_from_str. Qed.
+Print Assumptions C13_dtz_name_alone_parse_from_str.
+
+Example C13_offsets_inhabited :
+  valid_dtz 2016 366 Proofs.C13Offsets.ex_z /\
+  Model.DateTime.dz_off Proofs.C13Offsets.ex_zs mod 60 <> 0 /\
+  Proofs.C13Offsets.ex_zs_text = [50;48;49;53;45;48;54;45;51;48;84;49;51;58;48;49;58;48;49;43;48;49;58;48;49;58;48;49] /\
+  dt_parse_from_str Proofs.C13Offsets.ex_zs_text Proofs.C13Offsets.dtz_cc_format = perr_ TooLong /\
+  dt_parse_and_remainder Proofs.C13Offsets.ex_zs_text Proofs.C13Offsets.dtz_cc_format =
+    pok (Model.DateTime.mk_dtz (Model.DateTime.mk_ndt (Proofs.C08Sweeps.mkdate 2015 181) (Model.Time.mk_time 43201 0)) 3660, [58; 48; 49]).
+Proof. exact Proofs.C13Offsets.offsets_inhabited. Qed.
+Print Assumptions C13_offsets_inhabited.
+
+(* the upper bound is exact (Proofs/C13CenturyWide.v): EVERY date of a year >= 10000, the four forms *)
+From V Require Proofs.C13CenturyWide.
+Theorem C13_date_century_wide_refused : forall y o d items,
+  Proofs.C08Sweeps.repr y o d -> 10000 <= y -> In items Proofs.C13Century.century_items ->
+  exists text,
+    Model.Format.write_items (Model.Format.fa_of_date d) items [] = Model.Format.fok text /\
+    (let+ p := parse Model.Parsed.parsed_new text items in pr_of (Model.Parsed.to_naive_date p)) = Val (PErr Invalid).
+Proof. exact Proofs.C13CenturyWide.date_century_wide_refused. Qed.
+Print Assumptions C13_date_century_wide_refused.
+
+Example C13_date_century_wide_refused_inhabited :
+  Proofs.C08Sweeps.repr 10000 1 (Proofs.C08Sweeps.mkdate 10000 1) /\ 10000 <= 10000 /\
+  Proofs.C08Sweeps.repr 262142 365 (Proofs.C08Sweeps.mkdate 262142 365) /\ 10000 <= 262142 /\
+  In Proofs.C13Century.CYU_ITEMS Proofs.C13Century.century_items.
+Proof. exact Proofs.C13CenturyWide.date_century_wide_refused_inhabited. Qed.
+Print Assumptions C13_date_century_wide_refused_inhabited.
+
+(** ** the composite item Fixed::RFC3339 / the format string "%+" through parse_internal END TO END
+    (Proofs/C13Rfc.v).  The formatter arm is write_rfc3339 with SecondsFormat::AutoSi; the reader arm is
+    parse_rfc3339_relaxed (not the strict reader of C10).  For EVERY value of [valid_dtz] -- every year of
+    the range (the writer prints a sign outside 0..=9999, the relaxed reader's %Y takes it), every time of
+    day, leap second on :59 included -- the value comes back EXACTLY: AutoSi prints 0 / 3 / 6 / 9 fraction
+    digits, whichever loses nothing, and second 60 is read back with its flag.
+    Fixed::RFC2822 inside parse_internal has no end-to-end theorem: its arm is a second transcription
+    (Model.Parse.parse_rfc2822) of the function C11's theorems are about (Model.Rfc2822.parse_rfc2822);
+    Proofs/C13Rfc2822.v has the glue lemmas, the equality of the two and the writer equation are open.
+    It is covered by the never-Panic theorem above and by the correspondence run. *)
+From V Require Proofs.C13Rfc.
+Theorem C13_rfc3339_item_roundtrip : forall yu ou z, valid_dtz yu ou z ->
+  exists a text,
+    Model.Format.fa_of_dtz z = Val a /\
+    Model.Format.write_items a [IFixed F_RFC3339] [] = Model.Format.fok text /\
+    (let+ p := parse Model.Parsed.parsed_new text [IFixed F_RFC3339] in pr_of (Model.Parsed.to_datetime p)) = pok z.
+Proof. exact Proofs.C13Rfc.rfc3339_item_roundtrip. Qed.
+Print Assumptions C13_rfc3339_item_roundtrip.
+
+Theorem C13_rfc3339_parse_from_str : forall yu ou z, valid_dtz yu ou z ->
+  exists a text,
+    Model.Format.fa_of_dtz z = Val a /\
+    Model.Format.delayed_display a (Model.Strftime.sf_new Proofs.C13Rfc.rfc3339_format) = Model.Format.fok text /\
+    dt_parse_from_str text Proofs.C13Rfc.rfc3339_format = pok z.
+Proof. exact Proofs.C13Rfc.rfc3339_parse_from_str. Qed.
+Print Assumptions C13_rfc3339_parse_from_str.
+
+Example C13_rfc3339_roundtrip_inhabited :
+  valid_dtz 2016 366 (Model.DateTime.mk_dtz (Model.DateTime.mk_ndt (Proofs.C08Sweeps.mkdate 2016 366) (Model.Time.mk_time 86399 1500000000)) (-34200)) /\
+  dt_parse_from_str [50;48;49;54;45;49;50;45;51;49;84;49;52;58;50;57;58;54;48;46;53;48;48;45;48;57;58;51;48] Proofs.C13Rfc.rfc3339_format =
+    pok (Model.DateTime.mk_dtz (Model.DateTime.mk_ndt (Proofs.C08Sweeps.mkdate 2016 366) (Model.Time.mk_time 86399 1500000000)) (-34200)) /\
+  valid_dtz (-1) 1 (Model.DateTime.mk_dtz (Model.DateTime.mk_ndt (Proofs.C08Sweeps.mkdate (-1) 1) (Model.Time.mk_time 0 123456000)) 3600).
+Proof.
+  exact (conj (proj1 Proofs.C13Rfc.rfc3339_roundtrip_inhabited)
+          (conj (proj1 (proj2 Proofs.C13Rfc.rfc3339_roundtrip_inhabited))
+                (proj1 (proj2 (proj2 Proofs.C13Rfc.rfc3339_roundtrip_inhabited))))).
+Qed.
+Print Assumptions C13_rfc3339_roundtrip_inhabited.
